@@ -28,7 +28,7 @@ MODES = {
                             '-fsanitize=address,undefined', '-fno-sanitize=function,object-size,vptr',
                             '-fno-sanitize-recover=all']),
     # valgrind memcheck needs -O0 (see DESIGN D4)
-    'vg': ('clang++-14', ['-O0', '-g']),
+    'vg': ('clang++-14', ['-O0', '-g', '-gdwarf-4']),
     'gcc': ('g++', ['-O0']),
     'gcc_zero': ('g++', ['-O1', '-ftrivial-auto-var-init=zero']),
     'gcc_pattern': ('g++', ['-O1', '-ftrivial-auto-var-init=pattern']),
